@@ -677,6 +677,16 @@ pub fn sofa_touch(t_s: i128) {
     let _ = e.leap_seconds_with(false, LatestLeapSeconds::default());
     let u = utc_epoch_ns(t_s * NS_PER_S);
     let _ = u.leap_seconds(false);
+    // ...and at an instant BEFORE the span (1900-1959, derived from `t_s`), where even a
+    // SOFA-inclusive lookup finds nothing: a lookup WITHOUT an answer must not leave anything
+    // behind either (seeded change M224: a per-thread provider that is rewound only after a
+    // lookup that found an entry).
+    let (s0, _) = sofa_span();
+    let early = s0 - 1 - t_s.rem_euclid(60 * 365 * 86_400);
+    let e = tai_epoch_ns(early * NS_PER_S);
+    let _ = e.leap_seconds(false);
+    let _ = e.leap_seconds_with(false, LatestLeapSeconds::default());
+    let _ = utc_epoch_ns(early * NS_PER_S).leap_seconds(false);
 }
 
 /// IERS-only answers and conversions at a pre-1972 instant: no offset, no SOFA value.
